@@ -24,8 +24,11 @@ pub mod ffi {
             let is_neg = ns.high < 0;
             let ns_high_abs = ns.high.unsigned_abs() as u128;
             // Stick them together
-            let total = (ns_high_abs << (64 + ns.low as u128)) as i128;
-            // Reintroduce the sign
+            let total = (ns_high_abs << 64) + ns.low as u128;
+            // Reintroduce the sign. A magnitude that does not fit an i128 is far
+            // outside the range of an instant.
+            let total = i128::try_from(total)
+                .map_err(|_| TemporalError::from(temporal_rs::TemporalError::range()))?;
             let instant = if is_neg { -total } else { total };
             temporal_rs::Instant::try_new(instant)
                 .map(|c| Box::new(Self(c)))
